@@ -22,6 +22,9 @@ type authSrv struct {
 	// "535", "malformed" (non-base64 challenge), "extra" (an unexpected extra challenge), "drop", "454"
 	FaultStep int
 	Fault     string
+	// FaultOnce: the fault only hits the first exchange of the session(s) using this configuration
+	FaultOnce bool
+	exchanges int
 
 	mu  sync.Mutex
 	Res authResult
@@ -56,6 +59,8 @@ func (a *authSrv) handler() refsmtp.AuthHandler {
 	return func(io refsmtp.AuthIO, mech string, initial []byte, has bool) refsmtp.Action {
 		a.mu.Lock()
 		a.Res = authResult{Mech: mech, Ran: true}
+		a.exchanges++
+		faulty := !a.FaultOnce || a.exchanges == 1
 		a.mu.Unlock()
 		step := 0
 		set := func(f func(r *authResult)) {
@@ -66,7 +71,7 @@ func (a *authSrv) handler() refsmtp.AuthHandler {
 		// fault reports whether a deviation is due at this step and performs it; done=true ends the exchange
 		fault := func() (refsmtp.Action, bool) {
 			defer func() { step++ }()
-			if a.Fault == "" || a.FaultStep != step {
+			if a.Fault == "" || a.FaultStep != step || !faulty {
 				return refsmtp.Action{}, false
 			}
 			switch a.Fault {
